@@ -29,6 +29,7 @@ DRIVER = os.path.join(LEAN, ".lake", "build", "bin", "pmdriver")
 EVID = os.path.join(ROOT, "evidence")
 REPLAYS = os.path.join(ROOT, "replays")
 REPO = "/repo"
+CACHE = os.path.join(ROOT, ".cache")
 
 ALLOWED_AXIOMS = {"propext", "Classical.choice", "Quot.sound"}
 FORBIDDEN = re.compile(
@@ -438,6 +439,43 @@ def check(pid, tier, seed):
                 violations.append(("pipeline", {"stage": stage, "record": rec[:2000], "verdict": v}, False))
             oracle_evals += len(cl["ok"]) + len(cl["oracle"]) + len(cl["known"])
             info["other_property_items"] = len(cl["other"])
+
+    # (4) focused search. A disagreement between model and implementation is not by itself a
+    # failing input of the property: rerun the pattern sets of the disagreeing end-to-end
+    # records exhaustively (all heuristic answer strings up to a limit, all small hosts over the
+    # patterns' alphabet) and let the driver's oracles look for one.
+    focus_info = None
+    if ok_h and ok_lean and violations and not any(v[2] for v in violations):
+        prefixes = []
+        for kind, payload, _ in violations:
+            rec = payload.get("record", "") if isinstance(payload, dict) else ""
+            t = rec.split(None, 2)
+            if len(t) > 2 and t[0] == "E2E" and t[1] in ("S", "M", "G"):
+                pre = rec.split("=>")[0].strip()
+                if pre not in prefixes:
+                    prefixes.append(pre)
+        prefixes.sort(key=len)
+        prefixes = prefixes[: (3 if tier == "quick" else 8)]
+        if prefixes:
+            os.makedirs(os.path.join(CACHE, "focus"), exist_ok=True)
+            fpath = os.path.join(CACHE, "focus", f"{pid}.txt")
+            with open(fpath, "w") as fh:
+                fh.write("\n".join(prefixes) + "\n")
+            info, recs, verdicts = run_stage("focus", tier, seed, [fpath])
+            cl = classify(recs, verdicts, pid, spec)
+            info.update({k: len(v) for k, v in cl.items()})
+            info["focus_inputs"] = len(prefixes)
+            focus_info = info
+            stages_info.append(info)
+            evaluations += len(recs)
+            for i, rec, v in cl["oracle"][:20]:
+                violations.append(("oracle", {"stage": "focus", "record": rec, "verdict": v, "property": pid,
+                                              "note": "found by the focused search started from a model/implementation disagreement"}, True))
+            if not cl["oracle"] and cl["other"]:
+                # a failing input of a neighbouring property: not this property's replay, but
+                # worth recording next to the disagreement
+                i, rec, v = cl["other"][0]
+                info["related_failure"] = {"verdict": v[:300], "record": rec[:3000]}
 
     repro_info = None
     if spec.get("special") == "repro" and ok_h:
